@@ -1,5 +1,5 @@
 From Coq Require Import List NArith Bool.
-From V.Ts Require Import Model Proofs.
+From V.Ts Require Import Model Proofs Rearm Timing.
 Import ListNotations.
 Open Scope N_scope.
 From V.C09 Require Import Properties.
@@ -30,3 +30,39 @@ Check (C09_idle_closes :
   forall s c,
   svc_strong (s_ctxs s) c = false -> pend_on c (s_pend s) = 0 -> ch_held_of c (s_chans s) = 0 ->
   ch_other_of c (s_chans s) = 0 -> strong s c = 0).
+Check (C09_rearm_single :
+  forall tr ka T n0 k,
+  feasible 2 env0 (init ka T n0) tr = true ->
+  (cnt k (s_timers (final (init ka T n0) tr)) <= 1)%nat).
+Check (C09_rearm_tracked_one :
+  forall tr ka T n0 k t,
+  feasible 2 env0 (init ka T n0) tr = true ->
+  kfind k (s_last (final (init ka T n0) tr)) = Some t ->
+  cnt k (s_timers (final (init ka T n0) tr)) = 1%nat).
+Check (C09_rearm_needs_fifo :
+  exists tr k, cnt k (s_timers (final (init true 300 0) tr)) = 2%nat).
+Check (C09_sleeps_in_future :
+  forall s dt e k d,
+  In (k, d) (s_timers (fst (step s dt e))) -> s_now (fst (step s dt e)) < d).
+Check (C09_downgrade_exactly :
+  forall ka T n0 tr dt e p c,
+  let s := final (init ka T n0) tr in
+  on_time s dt -> 0 < s_T s ->
+  In (ODown p c) (snd (step s dt e)) ->
+  exists t, kfind (p, c) (s_act (fst (step s dt e))) = Some t /\
+            s_now (fst (step s dt e)) = t + s_T (fst (step s dt e))).
+Check (C09_never_overdue :
+  forall ka T n0 tr k t,
+  let s := final (init ka T n0) tr in
+  kfind k (s_last s) = Some t -> s_now s < t + s_T s).
+Check (C09_idle_close_exact :
+  forall tr ka T n0,
+  feasible 2 env0 (init ka T n0) tr = true ->
+  let s := final (init ka T n0) tr in
+  (forall k, handle_active (s_ctxs s) k = true ->
+     exists t, kfind k (s_last s) = Some t /\ kfind k (s_act s) = Some t /\
+               t <= s_now s /\ s_now s < t + s_T s) /\
+  (forall dt e p c, on_time s dt -> 0 < s_T s -> In (ODown p c) (snd (step s dt e)) ->
+     exists t, kfind (p, c) (s_act (fst (step s dt e))) = Some t /\
+               s_now (fst (step s dt e)) = t + s_T (fst (step s dt e))) /\
+  (forall c, 0 < pend_on c (s_pend s) \/ 0 < ch_held_of c (s_chans s) -> 0 < strong s c)).
